@@ -17,7 +17,12 @@ What the statements cover and what they exclude (and why):
   A valid-UTF-8 bytes value against an invalid one is excluded because the code's rendering of bytes
   is not injective there (`bytes_rendering_collides`, `bytes_collisions_are_mixed`: known finding);
   tuples and dicts with more than one element always contain ':' and are outside the property's
-  domain.  Non-emptiness of the texts, which the property's wording also grants, is not needed.
+  domain.  Non-emptiness of the texts, which the property's wording also grants, is not needed;
+* text is `List Char` — arbitrary sequences of Unicode scalar values; a `str` value is its own field
+  text (`str_text_is_identity`, `str_items_text_is_identity`), so two strings that differ as
+  sequences of code points get different keys however alike they look
+  (`key_separates_different_text`, `one_text_argument_keys_differ`).  Lone surrogates, which a
+  Python `str` can hold, are not `Char`s and are outside the model.
 -/
 namespace CashewsVerif.Props.C08
 open CashewsVerif.KeyModel
@@ -187,6 +192,36 @@ theorem text_injective_one_type (v₁ v₂ : PyVal) (hty : v₁.type = v₂.type
     cases a <;> cases b <;> simp [typeFmt] at h ⊢
   · rfl
 
+/-- **A `str` is rendered as itself** (`_decode_direct`): for every string — any length, any code
+points; a Lean `Char` is a Unicode scalar value, so precomposed and decomposed forms, compatibility
+characters, case variants, white space, zero-width and control characters, non-BMP characters are
+simply different lists — the field text is the string, on both formatter paths (`_type_format` on
+the `str.format` fast path, `_format_field` on the slow path and inside containers).  No
+normalisation, no case folding, no trimming, no re-encoding. -/
+theorem str_text_is_identity (s : Str) : typeFmt (.str s) = s ∧ fmtField (.str s) = s := by
+  constructor <;> simp [typeFmt, fmtField]
+
+/-- the same one level down: a tuple (or `*args` tail) of strings renders as the strings joined by
+':', a dict (or `**kwargs`) of strings as its `key:string` items in key order — the strings
+themselves unchanged -/
+theorem str_items_text_is_identity (ss : List Str) (kvs : List (Str × Str)) :
+    typeFmt (.tuple (ss.map .str)) = joinColon ss ∧
+    typeFmt (.dict (kvs.map fun kv => (kv.1, .str kv.2))) =
+      joinColon ((sortKey kvs).map fun kv => kv.1 ++ ':' :: kv.2) := by
+  have hl : ∀ l : List Str, fmtList (l.map .str) = l := by
+    intro l
+    induction l with
+    | nil => simp [fmtList]
+    | cons a r ih => simp [fmtList, fmtField, ih]
+  have hd : ∀ l : List (Str × Str), fmtItems (l.map fun kv => (kv.1, .str kv.2)) = l := by
+    intro l
+    induction l with
+    | nil => simp [fmtItems]
+    | cons a r ih => simp [fmtItems, fmtField, ih]
+  constructor
+  · simp [typeFmt, hl]
+  · simp [typeFmt, hd]
+
 /-- bytes that are *not* valid UTF-8 are told apart among themselves (hex is injective) -/
 theorem undecodable_bytes_injective (xs ys : List Nat) (hx : ∀ b ∈ xs, b < 256) (hy : ∀ b ∈ ys, b < 256)
     (ux : utf8Decode xs = none) (uy : utf8Decode ys = none)
@@ -293,6 +328,63 @@ example : cacheKey sigD15 tmplD15 {} ⟨[.int 1], []⟩ ≠ cacheKey sigD15 tmpl
   · exact ⟨.int 1, .int 2, rfl, rfl, by decide, by decide⟩
   · exact ⟨.int 5, .int 5, rfl, rfl, by decide, by decide⟩
   · exact ⟨.none, .none, rfl, rfl, by decide, by decide⟩
+
+/-- **Different texts, different keys.**  `key_separates_calls` for `str` values: whenever a
+mentioned parameter holds the strings `s₁` and `s₂` in the two calls and `s₁ ≠ s₂` *as sequences of
+code points*, the keys differ — however alike the two strings look (canonically or compatibility
+equivalent, equal up to case, to white space at the ends, to a zero-width character ...).  Any
+renderer of `str` that identifies two different strings contradicts this. -/
+theorem key_separates_different_text (sig : Sig) (t : Tmpl) (hs : separated t = true) (ctx : Ctx)
+    (hctx : ctx.rewrite = false) (c₁ c₂ : Call) (b₁ b₂ : Bound)
+    (hb₁ : boundArgs sig c₁ = some b₁) (hb₂ : boundArgs sig c₂ = some b₂)
+    (hdom : ∀ n ∈ t.fields, ∃ v₁ v₂, get? (valuesOf b₁) n = some v₁ ∧ get? (valuesOf b₂) n = some v₂ ∧
+      ':' ∉ typeFmt v₁ ∧ ':' ∉ typeFmt v₂)
+    (p : Str) (hp : p ∈ t.fields) (s₁ s₂ : Str)
+    (hv₁ : get? (valuesOf b₁) p = some (.str s₁)) (hv₂ : get? (valuesOf b₂) p = some (.str s₂))
+    (hne : s₁ ≠ s₂) :
+    cacheKey sig t ctx c₁ ≠ cacheKey sig t ctx c₂ :=
+  key_separates_calls sig t hs ctx hctx c₁ c₂ b₁ b₂ hb₁ hb₂ hdom p hp (.str s₁) (.str s₂) hv₁ hv₂
+    ⟨fun h => hne (by injection h), rfl, Or.inl rfl⟩
+
+/-- the smallest instance, fully explicit: `def f(a)` under its generated template keys `f(s₁)` and
+`f(s₂)` differently for any two different ':'-free strings -/
+theorem one_text_argument_keys_differ (mod name qual : Str) (s₁ s₂ : Str)
+    (h₁ : ':' ∉ s₁) (h₂ : ':' ∉ s₂) (hne : s₁ ≠ s₂) :
+    cacheKey [{ name := ['a'], kind := .pos }] (autoTemplate mod name qual [] [{ name := ['a'], kind := .pos }]) {}
+        ⟨[.str s₁], []⟩ ≠
+      cacheKey [{ name := ['a'], kind := .pos }] (autoTemplate mod name qual [] [{ name := ['a'], kind := .pos }]) {}
+        ⟨[.str s₂], []⟩ := by
+  have hf : (autoTemplate mod name qual [] [{ name := ['a'], kind := .pos }]).fields = [['a']] := by
+    rw [auto_template_mentions_every_parameter]; rfl
+  refine key_separates_different_text _ _ (auto_template_separated _ _ _ _ _) {} rfl _ _
+    [(['a'], .one (.str s₁))] [(['a'], .one (.str s₂))] rfl rfl ?_ ['a'] (by rw [hf]; simp) s₁ s₂ rfl rfl hne
+  intro n hn
+  rw [hf] at hn
+  have : n = ['a'] := by simpa using hn
+  subst this
+  exact ⟨.str s₁, .str s₂, rfl, rfl, by simpa [typeFmt] using h₁, by simpa [typeFmt] using h₂⟩
+
+/-- look-alike strings are different strings with different keys: precomposed / decomposed e-acute
+(U+00E9 / U+0065 U+0301), A-ring / ANGSTROM SIGN (U+00C5 / U+212B), the ligature U+FB01 / `fi`,
+full-width / ASCII digits, case, a trailing space, a zero-width space (U+200B), two non-BMP
+characters -/
+example :
+    let key (s : Str) := cacheKey [{ name := ['a'], kind := .pos }]
+      (autoTemplate ['m'] ['f'] ['f'] [] [{ name := ['a'], kind := .pos }]) {} ⟨[.str s], []⟩
+    key ['c', 'a', 'f', '\u00e9'] ≠ key ['c', 'a', 'f', 'e', '\u0301'] ∧
+    key ['c', 'a', 'f', 'e', '\u0301'] = some ("m:f:a:cafe".toList ++ ['\u0301']) ∧
+    key ['\u00c5'] ≠ key ['\u212b'] ∧ key ['\ufb01'] ≠ key ['f', 'i'] ∧
+    key ['\uff11', '\uff12'] ≠ key ['1', '2'] ∧ key ['K'] ≠ key ['k'] ∧ key ['x'] ≠ key ['x', ' '] ∧
+    key ['a', 'b'] ≠ key ['a', '\u200b', 'b'] ∧
+    key [Char.ofNat 0x1F600] ≠ key [Char.ofNat 0x1F601] ∧
+    key [Char.ofNat 0x1F600] = some ("m:f:a:".toList ++ [Char.ofNat 0x1F600]) := by
+  decide
+
+/-- the same texts passed as UTF-8 `bytes` are decoded, not normalised: `b'\xc3\xa9'` is U+00E9,
+`b'e\xcc\x81'` is `e` + COMBINING ACUTE ACCENT, `b'\xf0\x9f\x98\x80'` is U+1F600 -/
+example : typeFmt (.bytes [0xc3, 0xa9]) = ['\u00e9'] ∧
+    typeFmt (.bytes [0x65, 0xcc, 0x81]) = ['e', '\u0301'] ∧
+    typeFmt (.bytes [0xf0, 0x9f, 0x98, 0x80]) = [Char.ofNat 0x1F600] := by decide
 
 /-! ### what is excluded, with witnesses -/
 
